@@ -832,6 +832,11 @@ func Repeat(env envs.Environment, text *types.XText, count int) types.XValue {
 		return types.NewXErrorf("must be called with a positive integer, got %d", count)
 	}
 
+	// nothing to do for empty text, however large count is
+	if text.Empty() {
+		return types.XTextEmpty
+	}
+
 	var output bytes.Buffer
 	for j := 0; j < count; j++ {
 		output.WriteString(text.Native())
